@@ -153,7 +153,7 @@ def sweep(ck):
             ck.violation(what, dict(psll=P, L=L, bin=b0, phase=ph, path="compute"), tag="sidelobe-multibin")
     # fractional requests near the low end, first side lobes scanned finely (the bound has least slack there)
     from speckit.utils import kaiser_alpha as _ka
-    for P in (40.99, 45.5, 49.99):
+    for P in (40.99, 45.5, 49.99, 75.0, 112.5, 137.5, 150.0, 165.0, 180.0):
         lobe = math.sqrt(1 + float(_ka(P)) ** 2)
         for L, b0 in ((64, 20.3), (100, 31.0)):
             for off in np.arange(lobe * 1.0001, lobe + 3.0, 0.05):
